@@ -953,4 +953,171 @@ theorem msmBigintPlain_spec (nb : Nat) (one : List Nat) (bases : List G) (ks : L
 end Plain
 
 
+/-! ## the scalar-field configuration -/
+
+theorem toLimbs_value' (n v : Nat) : value (toLimbs n v) = v % B ^ n := by
+  induction n generalizing v with
+  | zero => simp [toLimbs, value, Nat.mod_one]
+  | succ n ih =>
+    simp only [toLimbs, value, ih]
+    rw [Nat.pow_succ, Nat.mul_comm (B ^ n) B, Nat.mod_mul]
+
+theorem toLimbs_wf' (n v : Nat) : WF (toLimbs n v) := by
+  induction n generalizing v with
+  | zero => simp [toLimbs, WF]
+  | succ n ih => exact WF_cons.mpr ⟨Nat.mod_lt _ B_pos, ih _⟩
+
+theorem toLimbs_length' (n v : Nat) : (toLimbs n v).length = n := by
+  induction n generalizing v with
+  | zero => simp [toLimbs]
+  | succ n ih => simp [toLimbs, ih]
+
+theorem toLimbs_top (n v d : Nat) : (toLimbs (n + 1) v).getLastD d = v / B ^ n % B := by
+  induction n generalizing v d with
+  | zero => simp [toLimbs]
+  | succ n ih =>
+    rw [toLimbs, List.getLastD_cons, ih, Nat.div_div_eq_div_mul, pow_succ']
+
+/-- `MODULUS_BIT_SIZE` for a configuration with `limbs = n + 1` -/
+theorem Cfg.numBits_succ (cfg : Cfg) (n : Nat) (hn : cfg.limbs = n + 1) :
+    cfg.numBits = n * 64 + bitLen (cfg.r / B ^ n % B) := by
+  unfold Cfg.numBits
+  rw [hn, toLimbs_top]
+  simp
+
+theorem Cfg.r_lt_two_pow_numBits (cfg : Cfg) (hr : cfg.r < 2 ^ (64 * cfg.limbs)) :
+    cfg.r < 2 ^ cfg.numBits := by
+  rcases Nat.eq_zero_or_pos cfg.limbs with h0 | hpos
+  · rw [h0] at hr
+    have : cfg.r = 0 := by simpa using hr
+    rw [this]; exact Nat.two_pow_pos _
+  · obtain ⟨n, hn⟩ : ∃ n, cfg.limbs = n + 1 := ⟨cfg.limbs - 1, by omega⟩
+    rw [cfg.numBits_succ n hn]
+    rw [hn, ← B_pow_eq, pow_succ] at hr
+    have hBn : 0 < B ^ n := Nat.pow_pos B_pos
+    have ht : cfg.r / B ^ n < B := Nat.div_lt_of_lt_mul (by rwa [Nat.mul_comm] at hr)
+    rw [Nat.mod_eq_of_lt ht]
+    have h1 : cfg.r < B ^ n * (cfg.r / B ^ n + 1) := Nat.lt_mul_div_succ _ hBn
+    have h2 : cfg.r / B ^ n < 2 ^ bitLen (cfg.r / B ^ n) :=
+      (bitLen_le_iff _ _).mp (Nat.le_refl _)
+    rw [pow_add, Nat.mul_comm n 64, ← B_pow_eq]
+    calc cfg.r < B ^ n * (cfg.r / B ^ n + 1) := h1
+      _ ≤ B ^ n * 2 ^ bitLen (cfg.r / B ^ n) := Nat.mul_le_mul_left _ h2
+
+theorem Cfg.numBits_pos (cfg : Cfg) (hr0 : 0 < cfg.r) (hr : cfg.r < 2 ^ (64 * cfg.limbs)) :
+    0 < cfg.numBits := by
+  have := cfg.r_lt_two_pow_numBits hr
+  rcases Nat.eq_zero_or_pos cfg.numBits with h | h
+  · rw [h] at this; omega
+  · exact h
+
+theorem Cfg.numBits_le (cfg : Cfg) (hr0 : 0 < cfg.r) (hr : cfg.r < 2 ^ (64 * cfg.limbs)) :
+    cfg.numBits ≤ 64 * cfg.limbs := by
+  rcases Nat.eq_zero_or_pos cfg.limbs with h0 | hpos
+  · rw [h0] at hr; omega
+  · obtain ⟨n, hn⟩ : ∃ n, cfg.limbs = n + 1 := ⟨cfg.limbs - 1, by omega⟩
+    rw [cfg.numBits_succ n hn, hn]
+    have : bitLen (cfg.r / B ^ n % B) ≤ 64 := (bitLen_le_iff _ _).mpr (Nat.mod_lt _ B_pos)
+    omega
+
+theorem Cfg.value_one_le (cfg : Cfg) : value cfg.one ≤ 1 := by
+  unfold Cfg.one
+  rw [toLimbs_value']
+  calc 1 % cfg.r % B ^ cfg.limbs ≤ 1 % cfg.r := Nat.mod_le _ _
+    _ ≤ 1 := Nat.mod_le _ _
+
+/-! ## the entry points -/
+
+section Entry
+variable {G : Type} [AddCommGroup G]
+
+/-- list form ↔ index form of `Σ_{i<min} f(kᵢ) • Pᵢ` -/
+theorem zipSum_eq_finset {α : Type} (f : α → ℕ) (d : α) (ks : List α) (bases : List G) :
+    ((ks.zip bases).map (fun p => f p.1 • p.2)).sum
+      = ∑ i ∈ Finset.range (min bases.length ks.length), f (ks.getD i d) • bases.getD i 0 := by
+  induction ks generalizing bases with
+  | nil => simp
+  | cons k ks ih =>
+    cases bases with
+    | nil => simp
+    | cons b bs =>
+      rw [List.zip_cons_cons, List.map_cons, List.sum_cons, ih, List.length_cons, List.length_cons,
+        Nat.succ_min_succ, Finset.sum_range_succ']
+      simp [add_comm]
+
+theorem msmBigint_spec (cfg : Cfg) (hr0 : 0 < cfg.r) (hr : cfg.r < 2 ^ (64 * cfg.limbs))
+    (bases : List G) (ks : List (List Nat)) (hks : ∀ k ∈ ks, WF k ∧ k.length = cfg.limbs)
+    (hsize : min bases.length ks.length < 2 ^ 64) :
+    msmBigint cfg bases ks = .ok
+      ((ks.zip bases).map (fun p =>
+        (value p.1 % 2 ^ (windowSize (min bases.length ks.length)
+          * divCeil cfg.numBits (windowSize (min bases.length ks.length)))) • p.2)).sum := by
+  unfold msmBigint
+  split
+  · exact msmBigintWnaf_spec cfg.numBits cfg.limbs bases ks (cfg.numBits_pos hr0 hr)
+      (cfg.numBits_le hr0 hr) hks hsize
+  · exact msmBigintPlain_spec cfg.numBits cfg.one bases ks (cfg.numBits_pos hr0 hr)
+      cfg.value_one_le (fun s hs => (hks s hs).1) hsize
+
+theorem msmBigint_exact (cfg : Cfg) (hr0 : 0 < cfg.r) (hr : cfg.r < 2 ^ (64 * cfg.limbs))
+    (bases : List G) (ks : List (List Nat))
+    (hks : ∀ k ∈ ks, WF k ∧ k.length = cfg.limbs ∧ value k < 2 ^ cfg.numBits)
+    (hsize : min bases.length ks.length < 2 ^ 64) :
+    msmBigint cfg bases ks = .ok ((ks.zip bases).map (fun p => value p.1 • p.2)).sum := by
+  rw [msmBigint_spec cfg hr0 hr bases ks (fun k hk => ⟨(hks k hk).1, (hks k hk).2.1⟩) hsize]
+  refine congrArg Outcome.ok (congrArg List.sum (List.map_congr_left ?_))
+  intro p hp
+  have hc := windowSize_ge (min bases.length ks.length)
+  rw [mod_window_eq _ _ _ (by omega) (hks _ (List.of_mem_zip hp).1).2.2]
+
+/-- the same in the `(bases.zip ks)` orientation -/
+theorem msmBigint_spec_zip (cfg : Cfg) (hr0 : 0 < cfg.r) (hr : cfg.r < 2 ^ (64 * cfg.limbs))
+    (bases : List G) (ks : List (List Nat))
+    (hks : ∀ k ∈ ks, k.length = cfg.limbs ∧ WF k ∧ value k < 2 ^ cfg.numBits)
+    (hsize : min bases.length ks.length < 2 ^ 64) :
+    msmBigint cfg bases ks = .ok ((bases.zip ks).map (fun a => value a.2 • a.1)).sum := by
+  rw [msmBigint_exact cfg hr0 hr bases ks
+    (fun k hk => ⟨(hks k hk).2.1, (hks k hk).1, (hks k hk).2.2⟩) hsize]
+  rw [← List.zip_swap bases ks, List.map_map]
+  rfl
+
+theorem msmUnchecked_spec (cfg : Cfg) (hr0 : 0 < cfg.r) (hr : cfg.r < 2 ^ (64 * cfg.limbs))
+    (bases : List G) (ks : List Nat) (hks : ∀ k ∈ ks, k < cfg.r)
+    (hsize : min bases.length ks.length < 2 ^ 64) :
+    msmUnchecked cfg bases ks = .ok ((ks.zip bases).map (fun p => p.1 • p.2)).sum := by
+  unfold msmUnchecked
+  have hrn := cfg.r_lt_two_pow_numBits hr
+  have hval : ∀ k ∈ ks, value (cfg.intoBigint k) = k := by
+    intro k hk
+    unfold Cfg.intoBigint
+    rw [toLimbs_value', B_pow_eq]
+    exact Nat.mod_eq_of_lt (Nat.lt_trans (hks k hk) hr)
+  rw [msmBigint_exact cfg hr0 hr bases (ks.map cfg.intoBigint) (by
+    intro k hk
+    obtain ⟨k0, hk0, rfl⟩ := List.mem_map.mp hk
+    refine ⟨toLimbs_wf' _ _, toLimbs_length' _ _, ?_⟩
+    rw [hval k0 hk0]
+    exact Nat.lt_trans (hks k0 hk0) hrn) (by simpa using hsize)]
+  rw [List.zip_map_left, List.map_map]
+  refine congrArg Outcome.ok (congrArg List.sum (List.map_congr_left ?_))
+  intro p hp
+  simp only [Function.comp_apply, Prod.map_fst, Prod.map_snd, id_eq]
+  rw [hval _ (List.of_mem_zip hp).1]
+
+theorem msm_spec_eq (cfg : Cfg) (hr0 : 0 < cfg.r) (hr : cfg.r < 2 ^ (64 * cfg.limbs))
+    (bases : List G) (ks : List Nat) (hks : ∀ k ∈ ks, k < cfg.r) (hlen : bases.length = ks.length)
+    (hsize : ks.length < 2 ^ 64) :
+    msm cfg bases ks = .ok (.ok ((ks.zip bases).map (fun p => p.1 • p.2)).sum) := by
+  unfold msm
+  rw [if_pos hlen, msmUnchecked_spec cfg hr0 hr bases ks hks (by rw [hlen]; simpa using hsize)]
+  rfl
+
+theorem msm_spec_ne (cfg : Cfg) (bases : List G) (ks : List Nat) (hlen : bases.length ≠ ks.length) :
+    msm cfg bases ks = .ok (.error (min bases.length ks.length)) := by
+  unfold msm
+  rw [if_neg hlen]
+
+end Entry
+
+
 end Ark.Msm
